@@ -1,11 +1,31 @@
-"""C18 — CRC-16/XMODEM and CRC-32C equal their bitwise definitions."""
+"""C18 — CRC-16/XMODEM and CRC-32C equal their bitwise definitions.
+
+Asserted: whenever crc16 / crc32c RETURN a value for an argument, it is the checksum (per harness/ref/refcrc.py) of the bytes that
+argument holds at the moment of the call, in the requested byte order - whatever was computed before in the process, whatever other
+library entry point used the checksums before, and whichever Python buffer type carries the bytes.
+Not asserted: that a given buffer type is accepted at all (a refusal by exception is fine for anything but bytes / bytearray /
+memoryview of them), anything about Cell.to_boc / from_boc / Address themselves (they only appear as earlier history), speed.
+"""
 from hypothesis import strategies as st
 from harness.core import Sub, Fail
 from harness.ref import refcrc
 
 RULE = ('cases are byte strings (hex). exhaustive sub-check: every string of length 0,1,2 (65 793); generated: '
         'random strings 0..4096 bytes, runs of one byte, strings ending in every byte value, long inputs (4 KiB..64 KiB, thorough 1 MiB) around power-of-two sizes; '
-        'non-trivial = length >= 1; distinct = distinct byte string')
+        'every case is also asked through memoryviews, a nested call and a bytearray edited in place. '
+        'edited-in-place: ONE buffer object of 16 kinds (bytearray, hashable bytearray subclass, anonymous mmap, read-only file mapping written '
+        'through a second handle, array, ctypes array, and writable / read-only / sliced / signed-char / re-created memoryviews of them) asked '
+        'before and after 1..3 in-place edits and after the original content is restored, plus short-lived equal copies; '
+        'designed-pairs: two different strings (16 B .. 70 kB, thorough 300 kB) asked alternately that agree in length and in IEEE CRC-32 '
+        '(generator polynomial or a multiple of it xored into the bit stream at start / middle / end), Adler-32, the other one of the two '
+        'checksums, CRC-32 and byte sum together, the multiset of bytes, everything but the first / last byte / one middle bit, or that '
+        'have different lengths and equal IEEE CRC-32 (forged tail); '
+        'after-other-entry-points: programs of 1..4 ordinary calls (Cell.to_boc with/without hash_crc32, has_idx, has_cache_bits; Cell.from_boc of a '
+        'reference-built bag, sound or with one bit flipped, as bytes / hex / base64; Address rendered, printed, hashed; friendly address parsed, sound '
+        'or with one bit flipped) and after each step and at the end the checksums of the byte strings involved (the bag, the bag without '
+        'trailer, the trailer, the 34 / 36 address bytes, each also followed by its own checksum) as the very object, an equal copy, a '
+        'memoryview, a bytearray; '
+        'non-trivial = length >= 1; distinct = distinct byte string / distinct program')
 ASSUMPTIONS = ['harness/ref/refcrc.py bitwise definitions (self-checked against the "123456789" check values)']
 
 
@@ -447,8 +467,8 @@ def check_pair(case):
     bucket = case['kind'].replace('-wide', '')
     for name, s in (('first', a), ('second', b), ('first', a), ('second', b)):
         e16, r32 = exp[name]
-        forms = [('bytes', s)] if len(s) > 20000 else [('bytes', s), ('memoryview', memoryview(s)), ('bytearray', bytearray(s)),
-                                                       ('equal copy', bytes(bytearray(s)))]
+        forms = [('bytes', s), ('memoryview', memoryview(s)), ('bytearray', bytearray(s)), ('equal copy', bytes(bytearray(s)))]
+        forms = forms[:1 if len(s) > 20000 else 2 if len(s) >= 4096 else 4]
         for fname, d in forms:
             g = crc16(d)
             if g != e16:
@@ -670,12 +690,12 @@ SUBCHECKS = [
         note='one buffer object (16 kinds: bytearray, mmap, array, ctypes array, read-only / sliced / signed views of them, a file '
              'mapping written through another handle) asked again after each in-place edit and after the original content is restored'),
     Sub('edited-in-place', check_edited, strategy=strat_edited, classify=lambda c: [c['kind'], 'edits=%d' % len(c['edits'])],
-        n=(150, 20000), shards=(8, 16)),
+        n=(150, 6000), shards=(8, 16)),
     Sub('designed-pairs', check_pair, enum=enum_pairs, classify=lambda c: [c['kind'], 'n=%d' % c['n']], shards=(8, 16),
         note='two different strings asked one after the other (first, second, first, second) that agree in length and in another digest '
              '(IEEE CRC-32, Adler-32, the OTHER of the two checksums, byte sum, multiset of bytes, first/last kilobytes) or differ in '
              'length with equal IEEE CRC-32'),
     Sub('after-other-entry-points', check_history, strategy=strat_history, classify=classify_history,
-        nontrivial=lambda c: any(s['op'] != 'crc' for s in c['steps']), n=(200, 20000), shards=(8, 16),
+        nontrivial=lambda c: any(s['op'] != 'crc' for s in c['steps']), n=(200, 6000), shards=(8, 16),
         note='programs of 1..4 ordinary library calls that use the checksums internally, then the checksum functions on the strings involved'),
 ]
